@@ -234,6 +234,7 @@ type runner struct {
 	last  [][]byte // payloads of the last successful flight (generator state only)
 	pf    *quic.VerifFlightPacker
 	pfN   int // generator state: packets packed so far in the current planned-flight session
+	pd    *quic.VerifFlightPacker // per-datagram session (the same real packer, per-datagram builder)
 }
 
 func newRunner(r *vh.Rand) vh.Runner { return &runner{} }
@@ -277,6 +278,9 @@ func (rn *runner) csState() string {
 func (rn *runner) AfterPanic(op string) string {
 	if strings.HasPrefix(op, "cs ") {
 		return "PANIC" + rn.csState()
+	}
+	if strings.HasPrefix(op, "pd ") {
+		rn.pd = nil // the packer's state after a panic is not defined: the session ends
 	}
 	return "PANIC"
 }
@@ -424,6 +428,98 @@ func (rn *runner) Exec(op string) string {
 			return "bad-op"
 		}
 		return rn.execPF(f)
+	case "pd":
+		if len(f) < 2 {
+			return "bad-op"
+		}
+		return rn.execPD(f)
+	}
+	return "bad-op"
+}
+
+// the per-datagram Initial path + loss recovery on a real uPacketPacker:
+//
+//	pd new <nil|qf|rf|mf> <builder spec> <CryptoLengths|-> <maxSize>
+//	pd pack <draws>    one PackCoalescedPacket
+//	pd probe <draws>   one PackPTOProbePacket(Initial, addPingIfEmpty)
+//	pd lose <k>        the k-th packed packet is declared lost (OnLost of every registered frame)
+//	pd write <lo> <n>  more handshake data on the Initial stream
+func (rn *runner) execPD(f []string) string {
+	switch f[1] {
+	case "new":
+		if len(f) < 6 {
+			return "bad-op"
+		}
+		var fb quic.QUICFrameBuilder
+		switch f[2] {
+		case "nil":
+		case "qf":
+			fb = parseFrames(f[3])
+		case "rf":
+			c := parseCfg(f[3])
+			fb = &c
+		case "mf":
+			m := &quic.QUICMultiDatagramFrames{}
+			for _, c := range strings.Split(f[3], ";") {
+				m.PerDatagram = append(m.PerDatagram, parseCfg(c))
+			}
+			fb = m
+		default:
+			return "bad-op"
+		}
+		rn.pd = quic.VerifNewDatagramPacker(fb, append([]byte{}, rn.src...), parseInts(f[4]), atoi(f[5]))
+		return fmt.Sprintf("ok hl=%d", rn.pd.HdrLen())
+	}
+	if rn.pd == nil {
+		return "skip"
+	}
+	switch f[1] {
+	case "pack", "probe": // probe: PackPTOProbePacket(Initial) instead of PackCoalescedPacket
+		if len(f) < 3 {
+			return "bad-op"
+		}
+		var res string
+		withDraws(f[2], func() {
+			call := rn.pd.Pack
+			if f[1] == "probe" {
+				call = rn.pd.Probe
+			}
+			payload, reg, packed, err := call()
+			if err != nil {
+				rn.pd = nil // PackCoalescedPacket failed: the connection is closed
+				res = errName(err)
+				return
+			}
+			if !packed {
+				res = "none"
+				return
+			}
+			rs := "-"
+			if len(reg) > 0 {
+				parts := make([]string, len(reg))
+				for i, c := range reg {
+					parts[i] = fmt.Sprintf("%d:%s", c.Offset, hx(c.Data))
+				}
+				rs = strings.Join(parts, ";")
+			}
+			res = "pkt p=" + hx(payload) + " reg=" + rs
+		})
+		return res
+	case "lose":
+		if len(f) < 3 {
+			return "bad-op"
+		}
+		if rn.pd.Lose(atoi(f[2])) {
+			return "ok"
+		}
+		return "skip"
+	case "write":
+		if len(f) < 4 {
+			return "bad-op"
+		}
+		p := rn.slice(atoi(f[2]), atoi(f[3]))
+		rn.pd.Write(p)
+		return fmt.Sprintf("n=%d", len(p))
 	}
 	return "bad-op"
 }
@@ -1339,6 +1435,13 @@ func (rn *runner) genPlannedScenario(r *vh.Rand) {
 	N := len(rn.src)
 	k := N/800 + 1 + r.Intn(2)
 	pieces := dealBounded(r, N, k)
+	// a flight with MORE datagrams than the spec's InitialPackets describes, the surplus one too big for
+	// its packet (it is held against the last entry): must be rejected before anything is sent
+	oversize := k >= 2 && r.Chance(10)
+	if oversize {
+		pieces[k-1] = append(pieces[k-1], pieces[k-2]...)
+		pieces[k-2] = nil
+	}
 	random := r.Chance(45)
 	mode := r.Pick(85, 8, 7) // covering / a piece missing / junk range
 	var dgs []string
@@ -1391,9 +1494,13 @@ func (rn *runner) genPlannedScenario(r *vh.Rand) {
 		}
 	}
 	sizes := "-"
-	if r.Chance(50) {
+	if r.Chance(50) || oversize {
 		sz := []string{}
-		for i, m := 0, 1+r.Intn(k); i < m; i++ {
+		nsz := 1 + r.Intn(k)
+		if oversize {
+			nsz = 1 + r.Intn(k-1)
+		}
+		for i, m := 0, nsz; i < m; i++ {
 			sz = append(sz, []string{"1200", "1250", "1252", "1350"}[r.Intn(4)])
 		}
 		sizes = strings.Join(sz, ",")
@@ -1443,6 +1550,186 @@ func (rn *runner) genPlannedScenario(r *vh.Rand) {
 	rn.queue = append(rn.queue, q...)
 }
 
+
+// builder configuration for a per-datagram session: in-range, packets that fit the packet buffer
+func genPdCfg(r *vh.Rand) string {
+	if r.Chance(6) {
+		return fmt.Sprintf("%d,%d,%d,%d,%d,%d,%d", r.Intn(3), r.Intn(3), r.Intn(3), r.Intn(4), r.Intn(3), r.Intn(3), []int{0, 300}[r.Intn(2)])
+	}
+	a := r.Intn(3)
+	c := 1 + r.Intn(3)
+	e := 1 + r.Intn(3)
+	l := []int{0, 0, 300, 700, 1000, 1180, 1215}[r.Intn(7)]
+	return fmt.Sprintf("%d,%d,%d,%d,%d,%d,%d", a, a+r.Intn(3), c, c+r.Intn(4), e, e+r.Intn(3), l)
+}
+
+// a QUICFrames layout that tiles every share that is at least m bytes long: fixed pieces of [0,m), then "the rest"
+func genOpenTiling(r *vh.Rand, m int) string {
+	k := r.Intn(4)
+	cuts := []int{0}
+	for i := 0; i < k && m > 1; i++ {
+		cuts = append(cuts, 1+r.Intn(m-1))
+	}
+	for i := 1; i < len(cuts); i++ {
+		for j := i; j > 0 && cuts[j] < cuts[j-1]; j-- {
+			cuts[j], cuts[j-1] = cuts[j-1], cuts[j]
+		}
+	}
+	var fr []string
+	for i := 0; i < len(cuts); i++ {
+		if i+1 < len(cuts) {
+			if cuts[i+1] > cuts[i] {
+				fr = append(fr, fmt.Sprintf("c%d:%d", cuts[i], cuts[i+1]-cuts[i]))
+			}
+		} else {
+			fr = append(fr, fmt.Sprintf("c%d:0", cuts[i]))
+		}
+	}
+	for i, n := 0, r.Intn(3); i < n; i++ {
+		if r.Bool() {
+			fr = append(fr, "g")
+		} else {
+			fr = append(fr, fmt.Sprintf("p%d", r.Intn(12)))
+		}
+	}
+	for i := len(fr) - 1; i > 0; i-- {
+		j := r.Intn(i + 1)
+		fr[i], fr[j] = fr[j], fr[i]
+	}
+	return strings.Join(fr, ",")
+}
+
+// the per-datagram Initial path on a real packer: the ClientHello goes out in as many datagrams as it
+// needs, datagrams are lost (the first only, an earlier one, the last, a subset, all of them as a
+// Retry does) during and after the flight, retransmissions are lost again, more handshake data is
+// written later; until nothing is left to send
+func (rn *runner) genDatagramScenario(r *vh.Rand) {
+	N := len(rn.src)
+	maxSize := []int{1200, 1252, 1252, 1300, 1350}[r.Intn(5)]
+	kind, spec := "nil", "-"
+	random := false
+	switch r.Pick(18, 8, 20, 32, 22) {
+	case 1:
+		kind = "qf"
+	case 2:
+		kind, spec = "qf", genOpenTiling(r, 1+r.Intn(120))
+	case 3:
+		kind, spec, random = "rf", genPdCfg(r), true
+	case 4:
+		c := []string{genPdCfg(r)}
+		for r.Chance(60) && len(c) < 3 {
+			c = append(c, genPdCfg(r))
+		}
+		kind, spec, random = "mf", strings.Join(c, ";"), true
+	}
+	cls := "-"
+	if r.Chance(45) {
+		var c []string
+		for i, m := 0, 1+r.Intn(3); i < m; i++ {
+			c = append(c, strconv.Itoa([]int{999, 999, 500, 1150, 1200, 2000, 64, 63, 100, 0}[r.Intn(10)]))
+		}
+		c = append(c, strconv.Itoa([]int{0, 999, 600, 1150}[r.Intn(4)]))
+		cls = strings.Join(c, ",")
+	}
+	draws := func() string {
+		if !random {
+			return "-z"
+		}
+		d := genDraws(r)
+		if strings.HasSuffix(d, "e") && r.Chance(85) {
+			d = strings.TrimSuffix(d, "e") + "z"
+		}
+		return d
+	}
+	q := []string{fmt.Sprintf("pd new %s %s %s %d", kind, spec, cls, maxSize)}
+	k := N/1000 + 1
+	packed := 0
+	var alive []int
+	pack := func(n int) {
+		for i := 0; i < n; i++ {
+			q = append(q, "pd pack "+draws())
+			alive = append(alive, packed)
+			packed++
+		}
+	}
+	loseIdx := func(i int) {
+		if i >= 0 && i < len(alive) {
+			q = append(q, fmt.Sprintf("pd lose %d", alive[i]))
+			alive = append(alive[:i], alive[i+1:]...)
+		}
+	}
+	loseSome := func(p int) {
+		for i := len(alive) - 1; i >= 0; i-- {
+			if r.Chance(p) {
+				loseIdx(i)
+			}
+		}
+	}
+	loseAllInOrder := func() {
+		for len(alive) > 0 {
+			loseIdx(0)
+		}
+	}
+	switch r.Pick(16, 14, 10, 14, 14, 14, 18) {
+	case 0: // the whole flight, then the FIRST datagram only
+		pack(k + 1)
+		loseIdx(0)
+	case 1: // an earlier datagram (not the last one)
+		pack(k + 1)
+		if len(alive) > 2 {
+			loseIdx(r.Intn(len(alive) - 2))
+		} else {
+			loseIdx(0)
+		}
+	case 2: // the last datagram that carried something
+		pack(k)
+		loseIdx(len(alive) - 1)
+	case 3: // a Retry: everything is re-queued, in order
+		pack(k + 1)
+		loseAllInOrder()
+	case 4: // a loss while the flight is still going out
+		pack(1 + r.Intn(k))
+		loseIdx(r.Intn(len(alive)))
+		pack(k)
+	case 5: // a subset
+		pack(k + 1)
+		loseSome(50)
+	default:
+		pack(k + 1)
+	}
+	probe := func() {
+		q = append(q, "pd probe "+draws())
+		alive = append(alive, packed)
+		packed++
+	}
+	for round := 0; round < 2; round++ {
+		if r.Chance(25) { // the PTO fires: the oldest outstanding datagram is re-queued and a probe packet is packed
+			if r.Chance(70) {
+				loseIdx(0)
+			}
+			probe()
+		}
+		pack(1 + r.Intn(3))
+		switch r.Pick(40, 25, 20, 15) {
+		case 0:
+			loseSome(25)
+		case 1:
+			loseIdx(0)
+		case 2:
+			loseAllInOrder()
+		}
+		if r.Chance(12) && N > 0 { // more handshake data (a second ClientHello after a HelloRetryRequest)
+			lo := r.Intn(N)
+			q = append(q, fmt.Sprintf("pd write %d %d", lo, 1+r.Intn(min(N-lo, 1500))))
+		}
+	}
+	pack(k + 3) // until nothing is left to send
+	if r.Chance(30) {
+		probe() // a PTO with nothing to send: the probe is built from an empty CRYPTO share
+	}
+	rn.queue = append(rn.queue, q...)
+}
+
 func (rn *runner) GenOp(r *vh.Rand, i int) string {
 	if i == 0 {
 		rn.src = genSrc(r)
@@ -1453,7 +1740,12 @@ func (rn *runner) GenOp(r *vh.Rand, i int) string {
 		rn.queue = rn.queue[1:]
 		return op
 	}
-	switch r.Pick(16, 24, 6, 12, 12, 10, 8, 12, 9) {
+	switch r.Pick(16, 24, 6, 12, 12, 10, 8, 12, 9, 14) {
+	case 9:
+		rn.genDatagramScenario(r)
+		op := rn.queue[0]
+		rn.queue = rn.queue[1:]
+		return op
 	case 8:
 		rn.genPlannedScenario(r)
 		op := rn.queue[0]
